@@ -136,15 +136,6 @@ func (n *Net) ByzStep() {
 		switch y := r.Intn(10); {
 		case y < 6 && len(n.KnownAt[h]) > 0:
 			bid = n.KnownAt[h][r.Intn(len(n.KnownAt[h]))].BlockID
-			if r.Intn(6) == 0 {
-				// the hash of a real block under another part-set header: a different block id (votes sign both)
-				if r.Intn(2) == 0 {
-					bid.PartSetHeader.Total++
-				} else {
-					bid.PartSetHeader.Hash = randBytes(r, 32)
-				}
-				n.Stats["byz_votes_same_hash_other_parts"]++
-			}
 		case y < 8:
 			// nil
 		default:
